@@ -422,7 +422,10 @@ def ref_star(prof, case):
     size = n + case['added_count'] + math.ceil(Fraction(case['added_fraction']) * n)
     cands, d = pairwise_from_scores(prof, case)
     sure, level, places = nbest_ref(agg, size)
-    completions = [sure] if level is None else [sure | set(x) for x in itertools.combinations(sorted(level), places)]
+    # a tie at the run-off boundary: any way of filling the run-off from the tied candidates is admissible, and so is
+    # letting all of them in
+    completions = [sure] if level is None else \
+        [sure | set(x) for x in itertools.combinations(sorted(level), places)] + [sure | set(level)]
     outs = []
     for members in completions:
         wins = schulze_ref(members, d, n)
@@ -852,24 +855,24 @@ def _raw_generate(rng, tier):
         c = json.loads(json.dumps(c))
         c['_tags'] = ['directed']
         yield c
-    for _ in range(800 if q else 6000):
+    for _ in range(800 if q else 20000):
         m = rng.randint(2, 6)
         yield {'op': 'pav', 'votes': _appr_profile(rng, m, small=rng.random() < 0.4), 'n': rng.randint(1, m), '_tags': []}
-    for _ in range(250 if q else 2000):
+    for _ in range(250 if q else 6000):
         m = rng.randint(2, 5)
         a, b = rng.randint(1, m), rng.randint(2, m)
         calls = [a, b, a] + [rng.randint(1, m) for _ in range(rng.randint(0, 2))]
         yield {'op': 'pav_seq', 'votes': _appr_profile(rng, m, small=rng.random() < 0.4), 'calls': calls, '_tags': []}
-    for _ in range(800 if q else 6000):
+    for _ in range(800 if q else 20000):
         m = rng.randint(2, 6)
         yield {'op': 'spav', 'votes': _appr_profile(rng, m, small=rng.random() < 0.5), 'n': rng.randint(1, m), '_tags': []}
     for op, k in (('score_agg', 700), ('score', 700), ('mj', 1000), ('star', 800), ('allocated', 800)):
-        for _ in range(k if q else k * 8):
+        for _ in range(k if q else k * 25):
             c = _score_case(rng, op)
             c['_tags'] = []
             yield c
     # directed random: majority-judgment ties (few grades, full ballots), equal-size and unequal-size
-    for _ in range(500 if q else 4000):
+    for _ in range(500 if q else 15000):
         m = rng.randint(2, 4)
         full = rng.random() < 0.6
         votes, seen = [], set()
@@ -1042,12 +1045,54 @@ REQUIRED = ['pav_eq_spec', 'pavSpec_some_iff', 'pav_returns_iff_unique_maximiser
             'pav_jr_unrepresented', 'pav_justified_representation',
             'spav_eq_spec', 'spav_round_argmax', 'spav_error_is_tie',
             'score_aggregate_eq_spec', 'mj_median_is_lower_median', 'score_mean_exact', 'score_eq_spec',
+            'mj_elects_highest_medians', 'star_runoff_pairwise', 'star_eq_schulze_of_runoff',
             'mj_default_tiebreak_witness', 'mj_default_tiebreak_scale_witness', 'star_single_runoff_witness',
             'star_boundary_tie_witness', 'star_member_dropped_witness', 'allocated_empty_ballot_witness',
             'allocated_ballots_run_out_witness']
-UNPROVED = []
-NOT_VERIFIED = []
-RULE = ''
-TECHNIQUE = ''
-LEVEL_TEXT = ''
-LEVEL_NOTE = ''
+
+UNPROVED = [
+    'score_truncation_eq_spec: the count dict after `_subtract_lowest` twice expands to the sorted grade list without its '
+    '`cutoff` lowest and `cutoff` highest entries (modelled and checked by correspondence + oracle only)',
+    'mj_default_tiebreak_eq_one_at_a_time: for tied candidates holding equally many grades the default tie-break (removal of '
+    '`closest_change` median grades per step) equals the one-grade-at-a-time Balinski-Laraki rule (oracle-checked on every '
+    'generated case; FALSE for unequal numbers of grades: mj_default_tiebreak_witness)',
+    'star_elects_runoff_winner (general): STAR = Schulze winner among the top `runoff_size` scorers for run-offs of more than two '
+    'finalists and under boundary ties (FALSE on the current code: star_*_witness); proved: the two-finalist run-off '
+    '(star_runoff_pairwise)',
+    'allocated_spends_one_quota: each seat removes exactly min(quota, supporters) ballot weight from the strongest supporters '
+    '(modelled, correspondence-checked; the loop itself is FALSE of the definition on profiles with exhausted or bullet ballots: '
+    'allocated_*_witness)',
+]
+NOT_VERIFIED = [
+    'iteration order of a Python set of candidates (Tie, frozenset) is modelled as ascending candidate id; the harness uses '
+    'str candidates that hash to their id so that CPython iterates them that way; with ordinary str candidates the order varies '
+    'with PYTHONHASHSEED, which changes only the order among equal sort keys — except in AllocatedScore (open finding '
+    'C12-allocated-score-tie-order)',
+    'order among entries with equal sort key in PAV / ScoreVoting / STAR results (iteration order of a set of (candidate, grade) '
+    'tuples) is not modelled: the correspondence compares up to permutation inside runs of equal keys',
+    'MajorityJudgment results are compared as multisets (the evaluator documents that it does not order its result)',
+    'ScoreToRankedVotes merges equal rankings before pair counting; the model adds ballot by ballot (same sums)',
+    'STAR run-off evaluators other than the default Schulze; unscored_value given as a callable object; truncation outside '
+    '{0} ∪ (0,1) ∪ positive integers; counts that are not Python ints (the code raises TypeError: open finding)',
+    'AllocatedScoreDistributor with prev_gains / arbitrary max_seats (only the selector: max one seat each)',
+]
+RULE = ('approval profiles over 2..6 candidates (1..6 distinct ballots, weights small ints, Fractions and ints up to 10^30), '
+        'score profiles over 2..5 candidates with grades 0..5 (also narrow grade sets to force ties), full and partial ballots, '
+        'counts 1..4; all 1 <= n <= candidates; function in {mean,sum,median_low}, unscored in {None,0,min}, min_count in '
+        '{0,2,3,5}, truncation in {0,1,2,1/4,1/3,1/10}, bottom in {0,1,-1}; MJ default/plus; STAR added_count 0..2, '
+        'added_fraction {0,1/2,1}; allocated droop/hare; PAV call sequences (n, m, n, ...) on one instance; thorough adds all '
+        'approval profiles over 3 candidates with <= 2 ballot kinds and all 2-candidate score profiles with grades 0..2. '
+        'Non-trivial = at least two candidates and a non-error outcome; distinct by canonical request.')
+TECHNIQUE = ('Lean 4: code-shaped models of approval.py / cardinal.py / convert.py proved equal to the defining computations '
+             '(arg-max over all n-subsets, round-wise arg-max, weighted mean / sum / counting median), justified representation by '
+             'the swap-and-average argument; differential correspondence of every model with votelib; independent brute-force '
+             'Python references as oracle')
+LEVEL_TEXT = ('PAV, SPAV, score aggregation, majority judgment (first stage), the two-finalist STAR run-off are proved for all '
+              'profiles and seat numbers: PAV returns exactly the unique maximiser of the harmonic satisfaction (refusal otherwise), '
+              'independently of the instance history; PAV committees satisfy justified representation; every SPAV round elects the '
+              'strict arg-max of the reweighted approvals; aggregates are the exact weighted mean / sum / lower median; MJ elects '
+              'above and never below the n-th highest median. The MJ default tie-break, larger STAR run-offs and the allocated-score '
+              'loop are modelled and tied by correspondence; their defects on the current code are proved as witnesses and recorded '
+              'as open findings.')
+LEVEL_NOTE = ('Trusted: Lean kernel + propext/Classical.choice/Quot.sound; translate.py for the quota functions; the correspondence '
+              'harness (bounded by its generator) and the modelling assumptions in modelled_not_verified (set iteration order).')
